@@ -339,6 +339,22 @@ pub fn check_tid(ctx: &mut Ctx, x: u128) {
         let parsed = Message::from_bytes(&bytes).ok().map(|m| u128::from(m.transaction_id()));
         let hdr = MessageHeader::from_bytes(&bytes).ok().map(|h| u128::from(h.transaction_id()));
         let _ = format!("{t} {t:?}");
+        // every one of the 96 bits tells two ids apart (equality, hashing, ordering of the wire bytes);
+        // bits above them tell nothing
+        let mut bit_faults: Vec<u32> = vec![];
+        if (x ^ (x >> 64)) as u64 % 8 == 0 {
+            use std::collections::HashSet;
+            let mut set: HashSet<TransactionId> = HashSet::new();
+            set.insert(t);
+            for k in 0..128u32 {
+                let o = TransactionId::from(x ^ (1u128 << k));
+                let same = o == t && set.contains(&o);
+                let differ = o != t && !set.contains(&o);
+                if (k < 96 && !differ) || (k >= 96 && !same) {
+                    bit_faults.push(k);
+                }
+            }
+        }
         // the id through every other way a builder comes to carry it: responses made from the parsed
         // request (success / error), write_into, into_owned, clone
         let mut derived: Vec<(&'static str, Option<(u128, u8, u16)>)> = vec![];
@@ -367,7 +383,7 @@ pub fn check_tid(ctx: &mut Ctx, x: u128) {
             let mut dest = vec![0x3Cu8; 20];
             derived.push(("Vec::clone_from", v[0].write_into(&mut dest).ok().and_then(|n| rd(dest[..n].to_vec()))));
         }
-        (back, btid, bytes, parsed, hdr, derived)
+        (back, btid, bytes, parsed, hdr, derived, bit_faults)
     });
     match r {
         Err(p) => ctx.violation(
@@ -379,7 +395,10 @@ pub fn check_tid(ctx: &mut Ctx, x: u128) {
             "value".into(),
             format!("panic {} at {}", p.msg, p.loc),
         ),
-        Ok((back, btid, bytes, parsed, hdr, derived)) => {
+        Ok((back, btid, bytes, parsed, hdr, derived, bit_faults)) => {
+            if !bit_faults.is_empty() {
+                ctx.violation("C19", "tid-all-96-bits-significant", "TransactionId::{eq,hash}", "", wit, "ids differing in one of the low 96 bits are different ids, bits above are ignored".into(), format!("not so for bits {bit_faults:?}"));
+            }
             for (how, got) in &derived {
                 let want_class = match *how { "builder_success" => 2u8, "builder_error" => 3, _ => 0 };
                 if *got != Some((low, want_class, 1)) {
